@@ -367,6 +367,12 @@ func (e *FieldAccessExpr) Check(ctx *CheckCtx) error {
 	if err := e.Left.Check(ctx); err != nil {
 		return err
 	}
+	// The member is named by a literal, also behind another field access
+	switch e.FieldName.(type) {
+	case *StringExpr, *NumberExpr:
+	default:
+		return NewSyntaxError(e.FieldName.GetPos(), "Invalid field name")
+	}
 	_, leftIsFAE := e.Left.(*FieldAccessExpr)
 	lrType := e.Left.ReturnType()
 	switch lrType {
